@@ -1,1 +1,121 @@
-pub fn placeholder() {}
+//! Reference for the program commitment, written from docs/src/design/programs.md ("Program hash
+//! computation"), docs/src/design/decoder/main.md (operation groups / batches / batch flags) and
+//! docs/src/design/chiplets/hasher.md (state layout: capacity h0..h3 with the domain in h1, rate
+//! h4..h11, digest h4..h7; linear hashing absorbs 8 elements per permutation keeping the capacity).
+//! The RPO permutation itself is the trusted primitive, supplied by the caller.
+
+pub type Word = [u64; 4];
+
+pub trait Perm {
+    fn permute(&self, state: &mut [u64; 12]);
+}
+
+/// hash of a span: linear hash of all batches (8 elements each); the number of elements is a multiple
+/// of the rate width, so the first capacity element is 0; no domain
+pub fn hash_batches(batches: &[[u64; 8]], p: &dyn Perm) -> Word {
+    let mut st = [0u64; 12];
+    for b in batches {
+        st[4..12].copy_from_slice(b);
+        p.permute(&mut st);
+    }
+    [st[4], st[5], st[6], st[7]]
+}
+
+/// hash_domain(a, b): 2-to-1 hash with the domain in the second capacity element
+pub fn merge_in_domain(a: Word, b: Word, domain: u64, p: &dyn Perm) -> Word {
+    let mut st = [0u64; 12];
+    st[1] = domain;
+    st[4..8].copy_from_slice(&a);
+    st[8..12].copy_from_slice(&b);
+    p.permute(&mut st);
+    [st[4], st[5], st[6], st[7]]
+}
+
+#[derive(Debug, Clone, PartialEq, Eq)]
+pub struct DecodedOp {
+    pub opcode: u8,
+    pub imm: Option<u64>,
+}
+
+/// Decodes one batch given its 8 group values and the number of groups it declares, checking the
+/// documented rules on the way. `carries_imm(opcode)` tells which opcodes carry an immediate.
+/// Returns the operations in order (NOOPs included as they appear; trailing NOOPs of a group are
+/// indistinguishable from padding and are not reported).
+pub fn decode_batch(groups: &[u64; 8], num_groups: usize, carries_imm: &dyn Fn(u8) -> bool) -> Result<Vec<DecodedOp>, String> {
+    if ![1usize, 2, 4, 8].contains(&num_groups) {
+        return Err(format!("number of groups {num_groups} is not one of 1, 2, 4, 8"));
+    }
+    for (i, g) in groups.iter().enumerate().skip(num_groups) {
+        if *g != 0 {
+            return Err(format!("group {i} beyond the declared {num_groups} groups is not zero"));
+        }
+    }
+    let mut is_imm = [false; 8];
+    let mut next_free = 1usize; // groups are handed out in order: op groups and immediates interleave
+    let mut out = vec![];
+    let mut gi = 0usize;
+    while gi < num_groups {
+        if is_imm[gi] {
+            gi += 1;
+            continue;
+        }
+        if gi >= next_free {
+            next_free = gi + 1;
+        }
+        let mut v = groups[gi];
+        let mut ops_in_group: Vec<u8> = vec![];
+        // read opcodes, first operation in the least significant position
+        let mut count = 0;
+        while v != 0 {
+            if count == 9 {
+                return Err(format!("group {gi} encodes more than 9 operations"));
+            }
+            ops_in_group.push((v & 0x7f) as u8);
+            v >>= 7;
+            count += 1;
+        }
+        for (pos, &opc) in ops_in_group.iter().enumerate() {
+            if carries_imm(opc) {
+                if pos == 8 {
+                    return Err(format!("operation with an immediate is in the last position of group {gi}"));
+                }
+                if pos + 1 == ops_in_group.len() {
+                    // it is the last non-NOOP operation of the group: allowed, a NOOP (value 0) follows
+                    // implicitly since pos < 8
+                }
+                // its immediate is the next group that has not been handed out yet
+                let mut k = next_free;
+                while k < 8 && is_imm[k] {
+                    k += 1;
+                }
+                if k >= num_groups {
+                    return Err(format!("immediate of an operation in group {gi} does not fit into the batch ({num_groups} groups)"));
+                }
+                is_imm[k] = true;
+                next_free = k + 1;
+                out.push(DecodedOp { opcode: opc, imm: Some(groups[k]) });
+            } else {
+                out.push(DecodedOp { opcode: opc, imm: None });
+            }
+        }
+        gi += 1;
+    }
+    Ok(out)
+}
+
+/// opcodes as documented in docs/src/design/stack/op_constraints.md
+pub mod opcode {
+    pub const NOOP: u8 = 0;
+    pub const SPLIT: u8 = 84;
+    pub const LOOP: u8 = 85;
+    pub const SPAN: u8 = 86;
+    pub const JOIN: u8 = 87;
+    pub const DYN: u8 = 88;
+    pub const PUSH: u8 = 100;
+    pub const SYSCALL: u8 = 104;
+    pub const CALL: u8 = 108;
+    pub const END: u8 = 112;
+    pub const REPEAT: u8 = 116;
+    pub const RESPAN: u8 = 120;
+    pub const HALT: u8 = 124;
+}
